@@ -216,6 +216,7 @@ class World:
             summ["Model." + mname] = chained(mname)
         fn = self.method(name)
         ab = Abs({}, {}, summ, me, self.getters())
+        ab.class_methods = set(self.repo.all_methods(self.cls)) | {g for c in self.repo.mro(self.cls) for g in c.getters}
         return ab.run_function(fn.node, args)
 
 
